@@ -44,15 +44,19 @@ func (c02Bad) CompareSameType(op syntax.Token, y starlark.Value, depth int) (boo
 
 // c02Iter: a host iterable (not a sequence: no Len) that yields 1, then a value whose
 // Hash/compare fail, then 2: consumers fail midway through the iteration.
-type c02Iter struct{}
+type c02Iter struct{ n int }
 
 func (c02Iter) String() string        { return "<iter>" }
 func (c02Iter) Type() string          { return "iter" }
 func (c02Iter) Freeze()               {}
 func (c02Iter) Truth() starlark.Bool  { return starlark.True }
 func (c02Iter) Hash() (uint32, error) { return 7, nil }
-func (c02Iter) Iterate() starlark.Iterator {
-	return &c02It{vals: []starlark.Value{starlark.MakeInt(1), c02Bad{}, starlark.MakeInt(2)}}
+func (it c02Iter) Iterate() starlark.Iterator {
+	vals := []starlark.Value{starlark.MakeInt(1), c02Bad{}, starlark.MakeInt(2)}
+	if it.n > 0 {
+		vals = vals[:it.n]
+	}
+	return &c02It{vals: vals}
 }
 
 type c02It struct {
@@ -245,6 +249,8 @@ func c02Value(code string) (starlark.Value, error) {
 			"a": starlark.MakeInt(1), "b": starlark.NewList(ints(2))}), nil
 	case "h_iter":
 		return c02Iter{}, nil
+	case "h_iter1":
+		return c02Iter{n: 1}, nil
 	case "h_bad":
 		return c02Bad{}, nil
 	case "tm":
@@ -438,13 +444,47 @@ func c02RunCall(c *c02CallCase) (out c02Outcome, merr error) {
 	if v == nil {
 		return c02Outcome{Class: "panic", Detail: "nil result without error"}, nil
 	}
-	// the result must itself be a usable value: render it with a bounded effort
-	if _, big := v.(*starlark.List); !big || v.(*starlark.List).Len() < 1000 {
-		if s, ok := v.(starlark.String); !ok || len(s) < 100000 {
-			_ = v.Type()
+	// the result must itself be a usable value: every element (bounded walk) is a value, and the result can be frozen
+	if bad := c02Walk(v, 3); bad != "" {
+		return c02Outcome{Class: "panic", Detail: bad}, nil
+	}
+	v.Freeze()
+	return c02Outcome{Class: "ok", Detail: v.Type()}, nil
+}
+
+// c02Walk visits the elements of a result (lists, tuples, dict items; at most 1000 per level) and reports a nil
+// element: a Go nil inside a Starlark value makes the host crash as soon as the element is touched.
+func c02Walk(v starlark.Value, depth int) string {
+	if v == nil {
+		return "nil element inside the result"
+	}
+	_ = v.Type()
+	if depth == 0 {
+		return ""
+	}
+	switch x := v.(type) {
+	case *starlark.List:
+		for i := 0; i < x.Len() && i < 1000; i++ {
+			if bad := c02Walk(x.Index(i), depth-1); bad != "" {
+				return bad
+			}
+		}
+	case starlark.Tuple:
+		for i := 0; i < len(x) && i < 1000; i++ {
+			if bad := c02Walk(x[i], depth-1); bad != "" {
+				return bad
+			}
+		}
+	case *starlark.Dict:
+		if x.Len() < 1000 {
+			for _, it := range x.Items() {
+				if bad := c02Walk(it[0], depth-1) + c02Walk(it[1], depth-1); bad != "" {
+					return bad
+				}
+			}
 		}
 	}
-	return c02Outcome{Class: "ok", Detail: v.Type()}, nil
+	return ""
 }
 
 func init() {
